@@ -21,7 +21,7 @@ var irType = map[string]*types.FloatType{
 // printed is what the library makes of one typed literal.
 type printed struct {
 	out      string // the literal it prints (parser path)
-	problem  string // "" | "parse-error" | "panic-parse" | "panic-print" | "paths-differ" | "module-text-differs"
+	problem  string // "" | "parse-error" | "parse-panic" | "print-panic" | "paths-differ" | "module-text-differs"
 	detail   string
 	viaConst string // constant.NewFloatFromString + Ident
 }
@@ -31,13 +31,13 @@ func viaConstant(q query) (out, problem, detail string) {
 	var c *constant.Float
 	var err error
 	if msg, p := mbt.Guard(func() { c, err = constant.NewFloatFromString(irType[q.kind], q.lit) }); p {
-		return "", "panic-parse", msg
+		return "", "parse-panic", msg
 	}
 	if err != nil {
 		return "", "parse-error", err.Error()
 	}
 	if msg, p := mbt.Guard(func() { out = c.Ident() }); p {
-		return "", "panic-print", msg
+		return "", "print-panic", msg
 	}
 	return out, "", ""
 }
@@ -55,7 +55,7 @@ func viaParser(qs []query) []printed {
 	if p || err != nil {
 		if len(qs) == 1 {
 			if p {
-				res[0] = printed{problem: "panic-parse", detail: msg}
+				res[0] = printed{problem: "parse-panic", detail: msg}
 			} else {
 				res[0] = printed{problem: "parse-error", detail: err.Error()}
 			}
@@ -84,7 +84,7 @@ func viaParser(qs []query) []printed {
 		}
 		var id, line string
 		if msg, p := mbt.Guard(func() { id = f.Ident(); line = g.LLString() }); p {
-			res[i] = printed{problem: "panic-print", detail: msg}
+			res[i] = printed{problem: "print-panic", detail: msg}
 			continue
 		}
 		res[i].out = id
